@@ -319,7 +319,7 @@ func smallScope(kind string, add func(in interface{})) {
 	}
 }
 
-const e2eRule = "seeded document sets (1..maxDocs documents, 1..4 and sometimes 200+ conjunctions, 0..6 expressions over the fields with repetition on one field, 0..4 values from the alphabet {-1, 0, 1..5} in several Go representations (per docset sometimes as identities beyond the int64 range 2^63+v in unsigned / decimal-string form, or as fractional floats on one side), empty lists, all-negative and empty conjunctions, ids incl. 0 and +-(2^43-1)), every tenth case over 9..16 fields, every eighth with pattern and range fields next to the default ones; documents added one per AddDocument call or (30%) in groups of 2..5, (20%) with an intermediate BuildIndex before the remaining documents, (25%) on a builder that has already built and Reset an earlier generation; 8..20 queries per index (absent/nil/empty/1..3 values per field -- one docset in six over a 24-value alphabet with 9..16 values per field --, an unknown field, repeats, debug options on 20%); thorough adds the exhaustive small scope (2 documents, conjunctions of <=2 atoms over 2 fields x 2 values, all 16 assignments). A case is integers against float64 of the same value at magnitudes 10^5 .. 2^53 (both sides); non-trivial when some query returns a non-empty proper subset of the accepted documents; distinct = distinct input"
+const e2eRule = "seeded document sets (1..maxDocs documents, 1..4 and sometimes 200+ conjunctions, 0..6 expressions over the fields with repetition on one field, 0..4 values from the alphabet {-1, 0, 1..5} in several Go representations (per docset sometimes as identities beyond the int64 range 2^63+v in unsigned / decimal-string form, or as fractional floats on one side), empty lists, all-negative and empty conjunctions, ids incl. 0 and +-(2^43-1)), every tenth case over 9..16 fields, every eighth with pattern and range fields next to the default ones; documents added one per AddDocument call or (30%) in groups of 2..5, (20%) with an intermediate BuildIndex before the remaining documents, (25%) on a builder that has already built and Reset an earlier generation; 8..20 queries per index (absent/nil/empty/1..3 values per field -- one docset in six over a 24-value alphabet with 9..16 values per field --, an unknown field, repeats, debug options on 20%); thorough adds the exhaustive small scope (2 documents, conjunctions of <=2 atoms over 2 fields x 2 values, all 16 assignments). A case is integers against float64 of the same value at magnitudes 10^5 .. 2^53 (both sides); two generations of one cached builder re-adding the same ids with other values; the debug dumps of the built index are called before the queries whenever a query carries the debug options; non-trivial when some query returns a non-empty proper subset of the accepted documents; distinct = distinct input"
 
 func init() {
 	gen := func(kind string, multiSat, mixed bool) func(tier string, r *Rand, add func(in interface{})) {
@@ -384,6 +384,19 @@ func init() {
 				}
 				add(cacheIn{Cache: true, Case: c, Thr: 2, Seed: 81, MissPct: 0, DropPct: 0})
 				add(cacheIn{Cache: true, Case: c, Thr: 2, Seed: 82, MissPct: 30, DropPct: 0, Reuse: true})
+				// two generations of one cached builder (Reset in between): the second re-adds the same ids with OTHER values at
+				// the same positions and sizes -- it must answer for its own documents
+				g2 := c
+				g2.Docs = []eDoc{
+					{ID: 1, Cons: []eConj{{{F: 0, Inc: true, V: ints(6, 20)}, {F: 1, Inc: true, V: tvStr("bj")}}}},
+					{ID: 2, Cons: []eConj{{{F: 0, Inc: true, V: ints(6, 0)}, {F: 1, Inc: false, V: tvStr("sh")}}}},
+					{ID: 3, Cons: []eConj{{{F: 0, Inc: true, V: ints(2, 3)}}, {{F: 2, Inc: true, V: ints(5, 1)}, {F: 0, Inc: true, V: ints(1, 9)}, {F: 1, Inc: true, V: tvSlice("[]string", tvStr("bj"))}}}},
+					{ID: -4, Cons: []eConj{{{F: 0, Inc: false, V: ints(5, 4)}, {F: 1, Inc: false, V: tvStr("gz")}}}},
+				}
+				g2.Queries = append(append([]eQuery{}, c.Queries...), eQuery{A: []eAssign{{F: 0, V: tvInt("int", 22)}, {F: 1, V: tvStr("bj")}}}, eQuery{A: []eAssign{{F: 0, V: tvInt("int", 3)}, {F: 1, V: tvStr("gz")}}})
+				g1 := c
+				g1.Queries = g2.Queries
+				add(cacheIn{Cache: true, Case: g1, Case2: &g2, Thr: 2, Seed: 83, MissPct: 0, DropPct: 0, Reuse: true})
 			}
 			// the same number as an integer on one side and as a float64 (as encoding/json decodes every number) on the
 			// other, at magnitudes where a float no longer prints in plain decimal by default (10^6 and up, up to 2^53)
